@@ -286,6 +286,3 @@ pub fn build(id: &str, tier: Tier) -> Option<Check> {
     })
 }
 
-pub fn selftest() -> i32 {
-    0
-}
